@@ -1039,7 +1039,28 @@ class SInt(SNum):
         return hash(Ctx.cur.concretize(self.e))
 
     def __float__(self):
-        return float(Ctx.cur.concretize(self.e))
+        c = Ctx.cur
+        e = z3.simplify(self.e)
+        if not z3.is_int_value(e) and c.branch(z3.Or(e > 2 ** 53, e < -(2 ** 53))):
+            # beyond float precision the conversion rounds: continue with the (possibly rounded) float of a witness
+            # value of this path; the symbolic integer stays pinned to the witness, so exact comparisons see the loss
+            if c.branch(e > 2 ** 53):
+                w = 2 ** 53 + 1 if c._check(e == 2 ** 53 + 1) else None
+            else:
+                w = -(2 ** 53) - 1 if c._check(e == -(2 ** 53) - 1) else None
+            if w is None:
+                w = c.concretize(e)
+            else:
+                c.add(e == w)
+                c._model = None
+            return float(w)
+        if z3.is_int_value(e):
+            return float(e.as_long())
+        # exact range: fork over the values when they are few, otherwise continue concolically with one representative
+        # (such a path is reported inconclusive unless it exposes a violation)
+        if c._check(z3.Or(e > (1 << 20), e < -(1 << 20))):
+            return c.concretize_real(z3.ToReal(e))
+        return float(c.concretize(e))
 
     def __invert__(self):
         return wrap(-self.e - 1)
